@@ -78,6 +78,12 @@ class ContextAdjuster(ast.NodeTransformer):
     self._ctx_override = None
     return self.generic_visit(node)
 
+  def visit_NamedExpr(self, node):
+    # The target of an assignment expression is a store, wherever the
+    # expression itself is used.
+    self._ctx_override = None
+    return self.generic_visit(node)
+
   def visit_Subscript(self, node):
     self._apply_override(node)
     self._ctx_override = ast.Load
